@@ -19,7 +19,8 @@ def main():
         s = dict(s, poke=rng.random() < 0.7)   # the telemetry bridge hands metric facets to the emitter during and after the run
         race = rng.random() < 0.5
         late = not race and rng.random() < 0.3
-        obs = cl.run_script(s, with_lineage=True, beats=beats, race=race, slow=race and rng.random() < 0.3, late=late)
+        s = dict(s, in_handler=rng.random() < 0.2)      # a retry started from inside an except block
+        obs = cl.run_script(s, with_lineage=True, beats=beats, race=race, slow=race and rng.random() < 0.3, late=late, in_handler=s['in_handler'])
         cl.life_oracle(run, s, obs, {'C18'})
         if not race and not late and rng.random() < 0.25:
             # a second run of the same process goes through the same emitter: its history stands on its own, under its own run id
